@@ -1,5 +1,7 @@
 SPECIFICATION Spec
-CONSTANTS MaxItems = 3
+CONSTANTS
+  MaxItems = 3
+  Tier = "thorough"
 INVARIANTS RoundTrip Lens Sized
 CONSTRAINT Emit
 CHECK_DEADLOCK FALSE
